@@ -2,7 +2,7 @@
 import bisect
 import math
 
-from common import run_model, enc, unbits, same_float, signatures
+from common import run_model, enc, unbits, same_float, signatures, tie_equal
 
 ID = 'C18'
 LEAN_MODULES = ['Dhlldv.Props.C18']
@@ -123,7 +123,7 @@ def correspondence(ctx):
     for (keys, vals, exlo, exhi, q, r, ins), o in zip(metas, outs):
         ctx.count('corr_compared')
         m = ('IndexError',) if o == 'IndexError' else ('ok', unbits(o))
-        if m[0] != r[0] or (m[0] == 'ok' and not same_float(m[1], r[1])):
+        if m[0] != r[0] or (m[0] == 'ok' and not (same_float(m[1], r[1]) if q in keys else tie_equal(ctx, m[1], r[1], max(abs(v) for v in vals)))):
             ctx.mismatch('InterpTable.lookup differs from interpDict.__getitem__',
                          {'keys': keys, 'vals': vals, 'extrapolate_low': exlo, 'extrapolate_high': exhi, 'query': q, 'inserted_as': ins}, m, r)
     ctx.sample({'table_keys': metas[0][0], 'query': metas[0][4], 'impl': metas[0][5]})
@@ -145,7 +145,7 @@ def correspondence(ctx):
             except IndexError:
                 r = ('IndexError',)
             m = ('IndexError',) if o == 'IndexError' else ('ok', unbits(o))
-            if m[0] != r[0] or (m[0] == 'ok' and not same_float(m[1], r[1])):
+            if m[0] != r[0] or (m[0] == 'ok' and not (same_float(m[1], r[1]) if q in keys else tie_equal(ctx, m[1], r[1], max(abs(float(v)) for v in tbl.values())))):
                 ctx.mismatch(f'generated table {name} differs from the implementation', {'query': q}, m, r)
 
 
@@ -157,7 +157,8 @@ def monitor(ctx, extended=False):
     for keys, vals, exlo, exhi, q, r, ins in metas:
         ctx.count('evaluations')
         want = oracle_lookup(keys, vals, exlo, exhi, 0.001, q)
-        good = want[0] == r[0] and (want[0] != 'ok' or same_float(want[1], r[1]))
+        # at a tabulated key the stored value itself (exact); elsewhere the straight line, whose evaluation order the property does not fix (1e-12)
+        good = want[0] == r[0] and (want[0] != 'ok' or (same_float(want[1], r[1]) if q in keys else tie_equal(ctx, want[1], r[1], max(abs(v) for v in vals))))
         if not good:
             ctx.violation(f'lookup gives {r}, piecewise-linear specification gives {want}',
                           {'keys': keys, 'vals': vals, 'extrapolate_low': exlo, 'extrapolate_high': exhi, 'query': q, 'inserted_as': ins}, key='lookup-spec')
@@ -204,5 +205,8 @@ def replay(v):
     except IndexError:
         r = ('IndexError',)
     want = oracle_lookup(i['keys'], i['vals'], i['extrapolate_low'], i['extrapolate_high'], 0.001, i['query'])
-    good = want[0] == r[0] and (want[0] != 'ok' or same_float(want[1], r[1]))
+    class _C:
+        def count(self, k):
+            pass
+    good = want[0] == r[0] and (want[0] != 'ok' or (same_float(want[1], r[1]) if i['query'] in i['keys'] else tie_equal(_C(), want[1], r[1], max(abs(v) for v in i['vals']))))
     return None if good else f'{r} vs {want}'
